@@ -199,13 +199,13 @@ pub fn required_probes(property: &str) -> Vec<&'static str> {
         "C17" => vec!["c17_signal_raised", "c17_sigterm", "c17_idle_client_at_signal", "c17_mid_transaction_client_at_signal", "c17_in_progress_transaction_finished", "c17_new_client_during_shutdown", "c17_admin_login_during_shutdown", "c17_all_clients_gone_before_timeout", "c17_timeout_path"],
         "C14" => vec!["c14_reload_happened", "c14_console_compared", "c14_transaction_straddled_reload", "c14_new_definition_used", "c14_removed_pool_refused", "c14_added_pool_served", "c14_pool_of_rejected_config_refused"],
         "C18" => vec!["c18_sample_at_barrier", "c18_final_sample", "c18_totals_compared", "c18_monotone_compared"],
-        "C09" => vec!["c09_md5_challenge_seen", "c09_valid_login", "c09_attack_wrong", "c09_attack_replay", "c09_attack_truncated", "c09_attack_hash_empty", "c09_attack_othermsg", "c09_attack_unknown_user", "c09_attack_admin_wrong", "c09_attack_old_password_after_change", "c09_valid_login_admitted", "c09_login_during_shutdown", "c09_attack_late_correct"],
+        "C09" => vec!["c09_md5_challenge_seen", "c09_valid_login", "c09_attack_wrong", "c09_attack_replay", "c09_attack_truncated", "c09_attack_hash_empty", "c09_attack_othermsg", "c09_attack_unknown_user", "c09_attack_admin_wrong", "c09_attack_old_password_after_change", "c09_valid_login_admitted", "c09_login_during_shutdown", "c09_attack_late_correct", "c09_tls_client_admitted", "c09_tls_client_refused", "client_tls_established"],
         "C10" => vec!["c10_cancel_at_backend", "c10_cancel_hit_own_statement", "c10_running_statement_cancelled", "c10_unknown_key_sent", "c10_idle_target_no_contact", "c10_departed_target_no_contact"],
         "C11" => vec!["c11_canary_step_checked", "c11_stage_startup", "c11_stage_password", "c11_stage_post_auth", "c11_stage_in_txn", "c11_stage_in_copy", "c11_stage_admin", "c11_stage_after_parse", "relay_compared_steps", "c11_payload_len_negative", "c11_payload_unknown_type", "c11_payload_b_param_len_beyond", "c11_payload_random_bytes"],
         "C13" => vec!["c13_command", "c13_not_a_command", "c13_non_command_forwarded", "c13_show_compared", "c13_out_of_range_refused", "c13_number_beyond_64_bits", "c13_grey_spelling"],
         "C06" => vec!["c06_statement_checked", "c06_decided_among_several_shards", "c06_set_sharding_key", "c06_set_shard", "c06_set_shard_out_of_range", "c06_path_sticky", "c06_path_comment_key", "c06_path_comment_shard", "c06_path_auto_literal", "c06_path_bind_text", "c06_path_bind_binary8", "c06_path_bind_binary4", "c06_path_bind_binary2"],
         "C05" => vec!["c05_statement_checked", "c05_decided_plain_read_replica", "c05_decided_write_primary", "c05_decided_ddl_primary", "c05_decided_utility_primary", "c05_decided_dm_cte_primary", "c05_decided_lock_primary", "c05_decided_select_into_primary", "c05_decided_txn_start_primary", "c05_decided_multi_with_write_primary", "c05_set_server_role_primary", "c05_set_server_role_replica", "c05_set_server_role_auto"],
-        "C19" => vec!["c19_listed_statement_checked", "c19_intercept_checked", "c19_control_plugins_disabled", "c19_where_simple", "c19_where_multi_statement", "c19_where_extended", "c19_where_batch_first", "c19_where_batch_last", "c19_where_in_transaction_simple", "c19_where_in_transaction_extended", "c19_where_named_parse_then_later_bind", "c19_spelling_upper", "c19_spelling_quoted", "c19_spelling_qualified"],
+        "C19" => vec!["c19_listed_statement_checked", "c19_intercept_checked", "c19_control_plugins_disabled", "c19_where_simple", "c19_where_multi_statement", "c19_where_extended", "c19_where_batch_first", "c19_where_batch_last", "c19_where_in_transaction_simple", "c19_where_in_transaction_extended", "c19_where_named_parse_then_later_bind", "c19_spelling_upper", "c19_spelling_quoted", "c19_spelling_qualified", "c19_statement_after_enabling_reload"],
         "C20" => vec!["relay_compared_steps", "c20_latency_checked", "c20_mirror_connection", "c20_mirror_unit_checked"],
         "C15" => vec!["c15_config_rejected", "c15_config_accepted", "c15_probe_checked", "c15_default_shard_probe_checked", "c15_admin_step_checked", "c15_accepted_valid", "c15_rejected_two_primaries", "c15_rejected_duplicate_server", "c15_rejected_default_shard_beyond_range", "c15_rejected_shard_id_not_numeric"],
         "C16" => vec!["c16_pause_interval", "c16_txn_sent_while_paused", "c16_client_held_then_released", "yield:pool.wait_paused.between"],
@@ -483,13 +483,13 @@ fn rule_of(property: &str) -> String {
         "C17" => "the real main.rs select loop: populations of idle, never-used, mid-transaction (shorter and longer than shutdown_timeout), admin and newly arriving clients; SIGINT, repeated SIGINT, admin SHUTDOWN and SIGTERM at PRNG times; shutdown_timeout 300/1000/3000 ms; both pool modes",
         "C14" => "old/new configuration pairs (unchanged, pool added, pool removed, servers changed, general setting changed, new pool whose server is down at reload time; syntactically invalid, three semantically invalid kinds, missing, unreadable, truncated), reload by admin RELOAD, SIGHUP and autoreload; workers of an unchanged pool with a transaction straddling the reload, workers of the changed/removed pool, clients arriving after the acknowledgement; yield point before POOLS.store",
         "C18" => "holders (inside a transaction), workers, never-used and failed-login clients, clients kicked at the checkout failure limit; clean and abrupt exits, also while holding a server; a barrier at which everybody is parked and the admin reads SHOW CLIENTS/SERVERS/POOLS/LISTS/STATS, and a second reading after everybody left",
-        "C09" => "honest clients (MD5 cleartext secret, auth_query secret, trust user, admin) next to attackers: wrong password, replay of a response captured from an honest client of the same run, truncated and oversized responses, a Query in place of the password, EOF and silence in the handshake, the empty-secret answer, unknown user/database, another user's password, admin database with wrong or application credentials; every attacker keeps sending tagged queries afterwards; auth_query runs also change the secret on the servers mid-run and boot with the lookup role unable to log in; a quarter of the runs raise SIGINT while a transaction is open and send logins with valid and invalid credentials afterwards",
+        "C09" => "honest clients (MD5 cleartext secret, auth_query secret, trust user, admin) next to attackers: wrong password, replay of a response captured from an honest client of the same run, truncated and oversized responses, a Query in place of the password, EOF and silence in the handshake, the empty-secret answer, unknown user/database, another user's password, admin database with wrong or application credentials; every attacker keeps sending tagged queries afterwards; auth_query runs also change the secret on the servers mid-run and boot with the lookup role unable to log in; a quarter of the runs raise SIGINT while a transaction is open and send logins with valid and invalid credentials afterwards; every fifth run the pooler offers TLS (the repository's test certificate) and three quarters of the clients, honest or not, negotiate it",
         "C10" => "2-5 runners with sleeping statements (simple and extended, bare and inside transactions), idle periods and departures inside a transaction over pools of 1-2 connections per server with 0-2 replicas, both pool modes; 1-3 cancellers sending CancelRequests with the target's key while its statement runs, 0-3 ms and 150-600 ms after its transaction ended, after it left, and with a wrong secret, wrong pid or random key; a late victim with long statements on the reused connections; yield sites after claim and before release",
         "C11" => "1-2 canaries and an admin canary next to 1-5 attackers sharing a pool of 1-2 connections (both modes, statement cache on/off, query parser on/off); hostile bytes before the startup packet (15 classes), in place of the password, after authentication idle / inside a transaction / inside COPY IN / after a Parse / on the admin console (42 payload classes: inconsistent, negative and huge declared lengths, unknown and backend-only types, malformed Parse/Bind/Describe/Close/Execute/Query bodies, valid messages in invalid order, half frames, PRNG bytes); every other run includes lengths that ask for 2 GiB under a simulated 1 GiB memory limit; final probes after the attackers are gone",
         "C13" => "1-3 clients idle in a transaction-mode pool over 1-4 shards, each sending 4-30 simple queries: the seven commands in every documented spelling (letter case, optional quotes, spaces around, optional semicolon), numeric arguments up to 60 digits, near misses (comments before/after, multi-statement forms, the command inside a string literal, wrong operators and values), undocumented spellings (counted, not judged) and ordinary statements in between; both sharding functions, all default roles; every third run loses all servers after start-up",
         "C06" => "1-3 clients over 1-6 shards (0-1 replicas each), both sharding functions, default_shard fixed or random; per client 4-24 autocommit steps drawn from: SET SHARDING KEY, SET SHARD in and out of range, statements without a key (stickiness), the sharding_key and shard_id comment regexes, a literal equated with the automatic sharding key in SELECT/INSERT/UPDATE/DELETE/JOIN with qualified and quoted names, anonymous Parse/Bind/Execute with the key as text or binary int2/int4/int8 parameter, alone or next to another parameter; keys biased to 0, +-1, 32/64-bit extremes and negative values; every fourth run one whole shard is unreachable",
         "C05" => "1-3 clients over one shard with a primary and 1-2 replicas, read/write splitting on, parser on in most runs, all default_role and primary_reads_enabled values; per client 5-26 steps: statements of 10 classes known by construction (plain reads incl. CTE/UNION/VALUES/subqueries, INSERT/UPDATE/DELETE/MERGE/TRUNCATE, DDL, utility statements, data-modifying CTEs, SELECT FOR UPDATE/SHARE also nested, SELECT INTO, multi-statement mixes) in simple and anonymous extended protocol, explicit transactions with 1-3 statements, SET SERVER ROLE and SET PRIMARY READS in between; acceptance by the pooler's parser decided with the same sqlparser version; every fourth run all replicas or the primary are unreachable",
-        "C19" => "1-2 clients, table_access with two listed tables, one intercept rule, query logger on/off, configured globally or per pool, statement cache on/off; statements mentioning a listed or unlisted relation in 12 positions (FROM, JOIN, subqueries, CTE, INSERT/UPDATE/DELETE target, USING, INSERT..SELECT, EXISTS, UPDATE..FROM) and 7 spellings (case, quotes, schema), sent alone, in multi-statement messages, in Parse..Sync batches with several Parses, inside transactions (simple and extended), and as a named Parse executed by a later Bind; the intercepted query in four spellings; every fourth run with plugins disabled",
+        "C19" => "1-2 clients, table_access with two listed tables, one intercept rule, query logger on/off, configured globally or per pool, statement cache on/off; statements mentioning a listed or unlisted relation in 12 positions (FROM, JOIN, subqueries, CTE, INSERT/UPDATE/DELETE target, USING, INSERT..SELECT, EXISTS, UPDATE..FROM) and 7 spellings (case, quotes, schema), sent alone, in multi-statement messages, in Parse..Sync batches with several Parses, inside transactions (simple and extended), and as a named Parse executed by a later Bind; the intercepted query in four spellings; every fourth run with plugins disabled; every sixth run the plugins are switched on by RELOAD while the clients are connected and idle",
         "C20" => "1-3 clients without pool contention over a primary (and optional replica) with 0-3 mirrors attached to either; simple, extended and transactional requests with known server-side durations; per-mirror fault scripts: down from the start, refuse + connection kills (fin/rst) with or without recovery, connect hang, black hole after accept, slow replies (50-2000 ms), startup rejected, every statement answered with an error, connection kills at PRNG times; a quarter of the runs without mirrors (control), a quarter with healthy mirrors; calm network in 70% of the runs (latency oracle), swarm otherwise",
         "C15" => "a base configuration (1-3 shards, primary and optional replica, 1-2 users) with at most one of 34 deviations: shard ids starting at 1, with a gap, non-numeric, huge, negative, with leading zero; two primaries, no primary, duplicate server, the same server in two shards, no servers; default_shard beyond range / last / random / random_healthy / bogus; default_role bogus or replica without replicas; user without password, incomplete auth_query, duplicate user names; min_pool_size above pool_size, pool_size 0; invalid regexes; plugins or read/write splitting without parser; mirror of an absent server; bogus sharding function and pool mode; unqualified automatic sharding key. Booted through the real main; when accepted, one probe client per (user, shard id written in the file, role), one for the default shard, and an admin client reading six SHOW commands",
         "C16" => "PAUSE/RESUME cycles (global or per pool) by an admin client; workers running throughout, clients that are idle when the pause begins, clients arriving after the PAUSE acknowledgement, mid-transaction clients; both pool modes; random subset of the yield sites inside wait_paused and between wait_paused and checkout; RESUME at PRNG times including right after a held client's message went out",
